@@ -189,6 +189,9 @@ func (db *DB) sendToWriteCh(entries []*kv.Entry, waitOnThrottle bool) (*request,
 
 	if err := db.enqueueCommitRequest(cr); err != nil {
 		req.wg.Done()
+		// Nothing was queued: the entries stay with the caller, exactly as for the
+		// earlier error returns, so the caller's own release is the only one.
+		req.Entries = nil
 		req.DecrRef()
 		commitReqPool.Put(cr)
 		return nil, err
